@@ -164,6 +164,15 @@ def structure(d):
     return tuple(np.shape(d))
 
 
+def prune_empty(d):
+    """A namespace under which nothing was saved holds no value: {'ns': {}} and {} say the same thing about what was saved
+    (observed under seed for a namespace around a scan body that only samples)."""
+    if not isinstance(d, dict):
+        return d
+    out = {k: prune_empty(v) for k, v in d.items()}
+    return {k: v for k, v in out.items() if not (isinstance(v, dict) and not v)}
+
+
 def compare(got, want, path=""):
     """-> list of (kind, message)"""
     if isinstance(want, dict):
@@ -267,11 +276,11 @@ def classify(case):
         return [(f"raises[{cfg}]:{e.sig()}{K}", f"{e}")], {"chains": ch}
     if not np.allclose(np.asarray(res), np.asarray(plain), rtol=1e-6, atol=1e-6) or not np.allclose(np.asarray(res), ref_result(nodes, x), rtol=1e-5, atol=1e-5):
         fails.append((f"not_transparent[{cfg}]{K}", f"state(f)(x)[0] = {np.asarray(res)} but f(x) = {np.asarray(plain)} (reference {ref_result(nodes, x)})"))
-    got = jax.tree_util.tree_map(np.asarray, got)
+    got = prune_empty(jax.tree_util.tree_map(np.asarray, got))
     for kind, msg in compare(got, want)[:3]:
         fails.append((f"collected_{kind}[{cfg}]{K}", msg + f"; collected structure {structure(got)}, expected {structure(want)}"))
     if not fails:
-        got2 = jax.tree_util.tree_map(np.asarray, got2)
+        got2 = prune_empty(jax.tree_util.tree_map(np.asarray, got2))
         for kind, msg in compare(got2, want2)[:2]:
             fails.append((f"second_call_collected_{kind}[{cfg}]{K}", f"second call of the same state(f) with x={x2}: " + msg))
     return fails, {"chains": ch}
